@@ -525,23 +525,17 @@ def compare_block_processor(ctx, rep, stats):
             continue
         elif fail:
             # The compressor failed on (at least) one block.  The worker must have handed the error to the pool
-            # (pool status = SQFS_ERROR_COMPRESSOR when the processor is done) whatever the schedule.  Whether the
-            # *block processor* then reports it depends on the schedule: both pools hand a failing item back non-NULL
-            # and dequeue_block asks get_status only on NULL / after a failed submit, so a failure after which nothing is
-            # submitted any more goes unnoticed (rc=0, block stored uncompressed) — C13's concern (docs/design/C09.md).
-            # Accepted: the compressor's error, or rc=0 with exactly the output one gets when the failing block is
-            # treated as incompressible AND the pool knows the error.
+            # (pool status = SQFS_ERROR_COMPRESSOR when the processor is done) whatever the schedule, and the block
+            # processor must report it (rc = SQFS_ERROR_COMPRESSOR) whatever the schedule (repaired by /repo 69db961).
             if int(r["cfail"]) > 0 and r["pst"] != r["cerr"]:
                 why = "the compressor failed %s time(s) but the pool's status is %s, not SQFS_ERROR_COMPRESSOR=%s: the worker's error never " \
                       "reached the pool" % (r["cfail"], r["pst"], r["cerr"])
             elif r["rc"] == "0":
+                # Since /repo 69db961 sqfs_block_processor_sync ends with the pool's status, so finish() reports the
+                # compressor's error on every schedule; rc=0 after a failing block means the failure was swallowed again.
                 swallowed += 1
-                ign = ignmap.get(w)
-                if ign is None:
-                    why = "no failure-ignored reference for a failing workload"
-                elif (r["sz"], r["out"], r["ino"]) != (ign["sz"], ign["out"], ign["ino"]):
-                    why = "worker failure unnoticed AND output differs from the failure-ignored reference (threaded %s / reference out=%s ino=%s)" % (
-                        a, ign["out"], ign["ino"])
+                why = "the compressor failed on a block but sqfs_block_processor_finish returned 0: the worker's failure is not " \
+                      "reported to the submitter (schedule %s)" % a
             elif r["rc"] != r["cerr"]:
                 why = "a failing compressor is reported as rc=%s instead of SQFS_ERROR_COMPRESSOR=%s" % (r["rc"], r["cerr"])
             elif int(r["cfail"]) == 0:
